@@ -19,6 +19,7 @@ func checkC09(c *Ctx) {
 	c09WriteTo(c)
 	c09PassOrder(c)
 	c09SpaceTable(c)
+	c09Verbatim(c)
 	c.NotCovered("idempotence as such and the alignment arithmetic of formatCells; that the output still parses to equal values")
 }
 
@@ -611,4 +612,109 @@ func paddingBounded(c *Ctx, rule string) {
 		}
 	}
 	c.Floor(rule+" padding slices", nb, 1, "spaces[:thisChunk]")
+}
+
+
+// R5 verbatim: the command-line formatter hands the formatted bytes on as they are.
+func c09Verbatim(c *Ctx) {
+	c.Rule("R5 verbatim: in cmd/hclfmt and hclwrite no call of a printf-style function (a fmt or log function with a `format string` parameter) has a format made from a byte slice (string(b), concatenations and Sprint of it), and at least one call writes the result of hclwrite.Format with Write/WriteFile: formatted source is data, never a format string (every % in it — template directives, the modulo operator, format() calls — would be interpreted)")
+	n, writes := 0, 0
+	format := c.P.LookupFunc("hclwrite", "Format")
+	for _, fn := range c.P.pkgFuncs("cmd/hclfmt", "hclwrite") {
+		for _, b := range fn.Blocks {
+			for _, ins := range b.Instrs {
+				call, ok := ins.(*ssa.Call)
+				if !ok {
+					continue
+				}
+				cal := call.Call.StaticCallee()
+				if cal == nil || cal.Pkg == nil {
+					if call.Call.IsInvoke() && call.Call.Method.Name() == "Write" && shortPkg(fnPkg(fn).Path()) == "cmd/hclfmt" {
+						writes++
+					}
+					continue
+				}
+				if (cal.Name() == "Write" || cal.Name() == "WriteFile") && shortPkg(fnPkg(fn).Path()) == "cmd/hclfmt" {
+					writes++
+				}
+				pp := cal.Pkg.Pkg.Path()
+				if pp != "fmt" && pp != "log" {
+					continue
+				}
+				ps := cal.Signature.Params()
+				for i := 0; i < ps.Len(); i++ {
+					if ps.At(i).Name() != "format" {
+						continue
+					}
+					ai := i
+					if cal.Signature.Recv() != nil {
+						ai++
+					}
+					n++
+					c.Sites++
+					fromBytes := formatFromBytes(call.Call.Args[ai], map[ssa.Value]bool{}, 0)
+					c.Check(!fromBytes, "verbatim", FuncName(fn)+":"+cal.Name()+"[format]", call.Pos(), "the format is not made from source bytes",
+						"a string made from a byte slice (source text) is used as a printf format: every % in it is interpreted and the output is no longer the formatted tokens")
+				}
+			}
+		}
+	}
+	_ = format
+	c.Floor("verbatim printf calls", n, 3, "messages of hclfmt and hclwrite")
+	c.Floor("verbatim raw writes in cmd/hclfmt", writes, 1, "os.Stdout.Write / os.WriteFile of the formatted bytes")
+}
+
+
+// formatFromBytes: the string is (made from) a conversion of a []byte.
+func formatFromBytes(v ssa.Value, seen map[ssa.Value]bool, d int) bool {
+	if v == nil || seen[v] || d > 12 {
+		return false
+	}
+	seen[v] = true
+	switch x := v.(type) {
+	case *ssa.Convert:
+		if sl, ok := x.X.Type().Underlying().(*types.Slice); ok {
+			if bt, ok := sl.Elem().Underlying().(*types.Basic); ok && bt.Kind() == types.Uint8 {
+				return true
+			}
+		}
+		return formatFromBytes(x.X, seen, d+1)
+	case *ssa.ChangeType:
+		return formatFromBytes(x.X, seen, d+1)
+	case *ssa.Phi:
+		for _, e := range x.Edges {
+			if formatFromBytes(e, seen, d+1) {
+				return true
+			}
+		}
+	case *ssa.BinOp:
+		return formatFromBytes(x.X, seen, d+1) || formatFromBytes(x.Y, seen, d+1)
+	case *ssa.Call:
+		for _, a := range x.Call.Args {
+			if formatFromBytes(a, seen, d+1) {
+				return true
+			}
+		}
+	case *ssa.MakeInterface:
+		return formatFromBytes(x.X, seen, d+1)
+	case *ssa.Slice:
+		return formatFromBytes(x.X, seen, d+1)
+	case *ssa.UnOp:
+		if al, ok := x.X.(*ssa.Alloc); ok && x.Op == token.MUL {
+			for _, st := range storesInto(al) {
+				if formatFromBytes(st.Val, seen, d+1) {
+					return true
+				}
+			}
+		}
+	case *ssa.Alloc:
+		for _, st := range storesInto(x) {
+			if formatFromBytes(st.Val, seen, d+1) {
+				return true
+			}
+		}
+	case *ssa.IndexAddr:
+		return formatFromBytes(x.X, seen, d+1)
+	}
+	return false
 }
